@@ -29,17 +29,17 @@ CONSTANTS CfgKeys, Vals, Bases, XVals, XYVals, GVals, MenuIds, MaxExprs, MaxResu
 \* ---------------------------------------------------------------- value attributes
 \* bytewise (strings.Compare) rank of every value token that can occur in a row
 AlphaRank(v) ==
-  CASE v = "" -> 0 [] v = "*" -> 1 [] v = "010" -> 2 [] v = "1000" -> 3 [] v = "1Ki" -> 4 [] v = "1Y" -> 5 [] v = "1Yi" -> 6
-    [] v = "1Z" -> 7 [] v = "1Zi" -> 8 [] v = "1k" -> 9 [] v = "4" -> 10 [] v = "64" -> 11 [] v = "9" -> 12
-    [] v = "N1" -> 13 [] v = "N2" -> 14 [] v = "NaN" -> 15 [] v = "s1" -> 16 [] v = "s2" -> 17 [] v = "x" -> 18
-    [] OTHER -> 19
+  CASE v = "" -> 0 [] v = "*" -> 1 [] v = ".5k" -> 2 [] v = "010" -> 3 [] v = "1000" -> 4 [] v = "1Ki" -> 5 [] v = "1Y" -> 6 [] v = "1Yi" -> 7
+    [] v = "1Z" -> 8 [] v = "1Zi" -> 9 [] v = "1k" -> 10 [] v = "4" -> 11 [] v = "64" -> 12 [] v = "9" -> 13
+    [] v = "N1" -> 14 [] v = "N2" -> 15 [] v = "NaN" -> 16 [] v = "s1" -> 17 [] v = "s2" -> 18 [] v = "x" -> 19
+    [] OTHER -> 20
 \* numeric reading of the 'num' order: <<class, rank>>, class 0 = number, 1 = NaN, 2 = not a number;
-\* rank orders the numbers (equal rank = equal value): 4 < 9 < 010 (ten, zero-padded) < 64 < 1000 = 1k
-\* < 1Ki (1024) < 1Z (1e21) < 1Zi (2^70) < 1Y (1e24) < 1Yi (2^80).
+\* rank orders the numbers (equal rank = equal value): 4 < 9 < 010 (ten, zero-padded) < 64 < .5k (500, no
+\* leading zero) < 1000 = 1k < 1Ki (1024) < 1Z (1e21) < 1Zi (2^70) < 1Y (1e24) < 1Yi (2^80).
 NumOf(v) ==
-  CASE v = "4" -> <<0, 1>> [] v = "9" -> <<0, 2>> [] v = "010" -> <<0, 3>> [] v = "64" -> <<0, 4>>
-    [] v = "1000" -> <<0, 5>> [] v = "1k" -> <<0, 5>>
-    [] v = "1Ki" -> <<0, 6>> [] v = "1Z" -> <<0, 7>> [] v = "1Zi" -> <<0, 8>> [] v = "1Y" -> <<0, 9>> [] v = "1Yi" -> <<0, 10>>
+  CASE v = "4" -> <<0, 1>> [] v = "9" -> <<0, 2>> [] v = "010" -> <<0, 3>> [] v = "64" -> <<0, 4>> [] v = ".5k" -> <<0, 5>>
+    [] v = "1000" -> <<0, 6>> [] v = "1k" -> <<0, 6>>
+    [] v = "1Ki" -> <<0, 7>> [] v = "1Z" -> <<0, 8>> [] v = "1Zi" -> <<0, 9>> [] v = "1Y" -> <<0, 10>> [] v = "1Yi" -> <<0, 11>>
     [] v = "NaN" -> <<1, 0>> [] OTHER -> <<2, 0>>
 
 \* ---------------------------------------------------------------- expressions
